@@ -140,6 +140,19 @@ def hello_ops(msg, rng, is_client):
         hh = copy.copy(h)
         hh.exts = ex[:idx + 1] + [(et, ed)] + ex[idx + 1:]
         out("ext_duplicated:%d" % et, hh)
+        # a bare 16-bit value (selected PSK identity, selected version,
+        # record size limit, ...): neighbours and boundaries
+        if len(ed) == 2:
+            cur = (ed[0] << 8) | ed[1]
+            for v in sorted({0, 1, 2, 3, (cur + 1) & 0xffff,
+                             (cur - 1) & 0xffff, 0x7fff, 0xffff} - {cur}):
+                hh = copy.copy(h)
+                hh.exts = ex[:idx] + [(et, bytes([v >> 8, v & 255]))] + \
+                    ex[idx + 1:]
+                out("ext_u16=%d:%d" % (v if v < 4 else
+                                       (-1 if v == ((cur - 1) & 0xffff) else
+                                        (1 if v == ((cur + 1) & 0xffff)
+                                         else v)), et), hh)
         # inner enum/list values replaced by unknown code points
         if len(ed) >= 4:
             hh = copy.copy(h)
